@@ -42,7 +42,7 @@ Print Assumptions C15_blocked_only_by_check.
 (* clause 2: >= 5 failed calls in a row and no answered call for >= 5 s: after the next status check the adapter is
    blocked and the endpoint is in no selector; if any endpoint is left in the selectors, a normal (non-probe) selection
    never returns it.  Scope: histories in which no registry refresh has dropped an endpoint that had an adapter
-   (shrunk = false; see C15_shrunk_only_by_dropping_refresh and the refutation below). *)
+   (shrunk = false: dropped from BOTH registry lists; see C15_shrunk_only_by_dropping_refresh and the refutation below). *)
 Theorem C15_blocked_after_streak : forall ls s e ai r s', run init ls = Some s -> shrunk s = false ->
   In e (reg s) -> lookup e (att s) = Some ai ->
   5 <= streak ai ls -> 5 <= clock ls - last_ok ai ls ->
@@ -53,14 +53,14 @@ Proof. exact FailoverThms.blocked_after_streak_hist. Qed.
 Print Assumptions C15_blocked_after_streak.
 
 Theorem C15_shrunk_only_by_dropping_refresh : forall s l s', step s l = Some s' -> shrunk s = false -> shrunk s' = true ->
-  exists r e ai, l = Refresh r /\ lookup e (att s) = Some ai /\ ~ In e r.
+  exists r i e ai, l = Refresh r i /\ lookup e (att s) = Some ai /\ ~ In e r /\ ~ In e i.
 Proof. exact FailoverThms.shrunk_only_by_dropping_refresh. Qed.
 Print Assumptions C15_shrunk_only_by_dropping_refresh.
 
 (* in terms of the history: the scope is left exactly by a refresh that drops an endpoint which has an adapter then *)
 Theorem C15_scope_left_only_by_dropping_refresh : forall ls s0 s, run s0 ls = Some s -> shrunk s0 = false -> shrunk s = true ->
-  exists pre r post s1 e ai, ls = pre ++ Refresh r :: post /\ run s0 pre = Some s1 /\
-    lookup e (att s1) = Some ai /\ ~ In e r.
+  exists pre r i post s1 e ai, ls = pre ++ Refresh r i :: post /\ run s0 pre = Some s1 /\
+    lookup e (att s1) = Some ai /\ ~ In e r /\ ~ In e i.
 Proof. exact FailoverQueue.scope_left_only_by_dropping_refresh. Qed.
 Print Assumptions C15_scope_left_only_by_dropping_refresh.
 
@@ -72,6 +72,39 @@ Theorem C15_blocked_after_streak_any_refresh_refuted :
     In e (sel s') /\ (exists s'', step s' (SelPick e ai) = Some s'').
 Proof. exact FailoverExamples.streak_clause_refuted_after_refresh. Qed.
 Print Assumptions C15_blocked_after_streak_any_refresh_refuted.
+
+(* slow endpoints: a reply that arrives after its caller's deadline (label Late) changes nothing, and the history
+   quantities above do not see it: the timed-out call stays a failed call, the streak is not reset, the time of the last
+   answered call does not move - so C15_blocked_after_streak takes a slow endpoint out exactly as a silent one *)
+Theorem C15_late_reply_no_effect : forall s ai s', step s (Late ai) = Some s' -> s' = s.
+Proof. exact FailoverQueue.late_reply_no_effect. Qed.
+Print Assumptions C15_late_reply_no_effect.
+
+Theorem C15_late_replies_do_not_count : forall ai ls,
+  let ls' := filter (fun l => negb (is_late l)) ls in
+  fails_since ai ls' = fails_since ai ls /\ streak ai ls' = streak ai ls /\ last_ok ai ls' = last_ok ai ls /\ clock ls' = clock ls.
+Proof. exact FailoverQueue.late_replies_do_not_count. Qed.
+Print Assumptions C15_late_replies_do_not_count.
+
+(* registry changes while an endpoint is blocked: a refresh keeps the health record of every endpoint it lists, as
+   active or as inactive; in scope a blocked endpoint is in no selector, and it stays out - record attached - through
+   every history without an answered probe of it (active -> inactive -> active included) *)
+Theorem C15_refresh_keeps_listed : forall s l i s' e ai, step s (Refresh l i) = Some s' ->
+  lookup e (att s) = Some ai -> In e (l ++ i) -> lookup e (att s') = Some ai.
+Proof. exact FailoverQueue.refresh_keeps_listed. Qed.
+Print Assumptions C15_refresh_keeps_listed.
+
+Theorem C15_blocked_out_of_rotation : forall s e ai a, reachable s -> shrunk s = false ->
+  lookup e (att s) = Some ai -> get ai s = Some a -> ast a = false -> ~ In e (sel s).
+Proof. exact FailoverQueue.blocked_out_of_rotation. Qed.
+Print Assumptions C15_blocked_out_of_rotation.
+
+Theorem C15_blocked_stays_out_without_probe : forall ls s s' e ai a, reachable s -> run s ls = Some s' -> shrunk s' = false ->
+  lookup e (att s) = Some ai -> get ai s = Some a -> ast a = false -> memN ai (reinst s) = false ->
+  ~ In (Out ai true true) ls ->
+  lookup e (att s') = Some ai /\ (exists a', get ai s' = Some a' /\ ast a' = false) /\ ~ In e (sel s').
+Proof. exact FailoverQueue.blocked_stays_out_without_probe. Qed.
+Print Assumptions C15_blocked_stays_out_without_probe.
 
 (* clause 3a: probe requests for the same adapter object (reqlog is newest first) are at least 30 s apart ... *)
 Theorem C15_probe_rate : forall s pre e2 e1 ai t2 t1 mid post, reachable s ->
